@@ -198,6 +198,88 @@ let show_render (r : E.render_result) : string =
 let model_render src data =
   show_render (E.evaluate_string empty_ctx (bytes_of_string src) (data_of_string data))
 
+(* ---------- tree: file system + operation history (harness/tree.go) *)
+
+let fs_of_sx (x : sx) : (E.bytes * E.fnode) list =
+  match x with
+  | L items ->
+      List.map
+        (function
+          | L (A p :: A kind :: rest) ->
+              let content = match rest with A c :: _ -> unhex c | _ -> "" in
+              ( bytes_of_string (unhex p),
+                match kind with
+                | "file" | "unreadable" -> E.FFile (bytes_of_string content)
+                | "dir" -> E.FDir
+                | "dangling" -> E.FDangling
+                | _ -> failwith "fs kind" )
+          | _ -> failwith "fs entry")
+        items
+  | _ -> failwith "fs"
+
+let data_of_sx (x : sx) : (E.bytes * E.goval) list =
+  match x with L items -> List.map kv_of_sx items | A _ -> []
+
+let fnid_of = function
+  | "id" -> E.F_id | "const" -> E.F_const | "const2" -> E.F_const2 | "echo" -> E.F_echo
+  | "args" -> E.F_args | "nargs" -> E.F_nargs | "not" -> E.F_not
+  | s -> failwith ("fnid " ^ s)
+
+let type_of_short = function
+  | "str" -> "STRING" | "arr" -> "ARRAY" | "int" -> "INTEGER" | "float" -> "FLOAT" | "bool" -> "BOOLEAN"
+  | s -> failwith ("receiver type " ^ s)
+
+let op_of_sx (x : sx) : E.op option =
+  let b h = bytes_of_string (unhex h) in
+  let dat = function d :: _ -> data_of_sx d | [] -> [] in
+  match x with
+  | L [ A "new"; A d; A e; A p; A dbg ] -> Some (E.OpNew (b d, b e, b p, dbg = "1"))
+  | L (A "string" :: A n :: rest) -> Some (E.OpString (b n, dat rest))
+  | L (A "response" :: A n :: rest) -> Some (E.OpResponse (b n, dat rest))
+  | L (A "evalstr" :: A s :: rest) -> Some (E.OpEvalStr (b s, dat rest))
+  | L (A "evalfile" :: A p :: rest) -> Some (E.OpEvalFile (b p, dat rest))
+  | L [ A "reg"; A ty; A n; A f ] -> Some (E.OpReg (bytes_of_string (type_of_short ty), b n, fnid_of f))
+  | _ -> None
+
+let show_err (e : E.terr) =
+  Printf.sprintf "ERR %s %s %s" (ni e.E.e_line) (hexb e.E.e_path) (hexb e.E.e_msg)
+
+exception Model_hang
+
+let show_obs (o : E.obs) : string =
+  match o with
+  | E.ObsNewOk names -> "OK " ^ String.concat "," (List.map hexb names)
+  | E.ObsErr e -> show_err e
+  | E.ObsOut out -> "OK " ^ hexb out
+  | E.ObsRegOk -> "OK"
+  | E.ObsNoTemplate -> "NOTPL"
+  | E.ObsUnsupportedData -> "UNSUPPORTED-DATA"
+  | E.ObsPanic -> "PANIC"
+  | E.ObsOutOfFuel -> raise Model_hang
+  | E.ObsUnmodelled -> "UNMODELLED"
+  | E.ObsResp r -> (
+      match r with
+      | E.RespOk body -> "RESP " ^ hexb body ^ " OK"
+      | E.RespFail (body, e) | E.RespFailOther (body, e) -> "RESP " ^ hexb body ^ " " ^ show_err e
+      | E.RespUnsupportedData -> "UNSUPPORTED-DATA"
+      | E.RespPanic -> "PANIC"
+      | E.RespOutOfFuel -> raise Model_hang
+      | E.RespUnmodelled -> "UNMODELLED")
+
+let model_tree (fsx : string) (opsx : string) : string =
+  let fs = fs_of_sx (parse_sx fsx) in
+  let ops = match parse_sx opsx with L l -> l | _ -> failwith "ops" in
+  let ops' = List.map op_of_sx ops in
+  if List.exists (fun o -> o = None) ops' then "UNMODELLED\tunknown op"
+  else
+    let ops'' = List.map (function Some o -> o | None -> assert false) ops' in
+    try
+      let obs = E.run_history fs E.init_state ops'' in
+      let strs = List.map show_obs obs in
+      if List.exists (fun s -> s = "UNMODELLED") strs then "UNMODELLED"
+      else "TREE\t" ^ String.concat "|" strs
+    with Model_hang -> "HANG"
+
 (* ---------- dispatch *)
 
 let model_obs (f : string list) : string =
@@ -206,6 +288,7 @@ let model_obs (f : string list) : string =
   | _ :: "parse" :: src :: _ -> model_parse (unhex src)
   | [ _; "render"; src ] -> model_render (unhex src) ""
   | _ :: "render" :: src :: data :: _ -> model_render (unhex src) (unhex data)
+  | _ :: "tree" :: fs :: ops :: _ -> model_tree (unhex fs) (unhex ops)
   | _ -> "UNMODELLED\tunknown kind"
 
 
@@ -218,4 +301,16 @@ let same_obs (m : string) (impl : string) : bool =
     | [ "PANIC" ], "PANIC" :: _ -> true
     | [ "RENDER"; "UNSUPPORTED-DATA" ], [ "RENDER"; "ERR"; "0"; "-"; msg ] ->
         starts_with "unsupported type '" (unhex msg)
+    | [ "TREE"; mo ], [ "TREE"; io ] ->
+        let ml = String.split_on_char '|' mo and il = String.split_on_char '|' io in
+        List.length ml = List.length il
+        && List.for_all2
+             (fun a b ->
+               a = b
+               || (a = "PANIC" && starts_with "PANIC" b)
+               || (a = "UNSUPPORTED-DATA"
+                  && (match String.split_on_char ' ' b with
+                     | [ "ERR"; "0"; "-"; msg ] -> starts_with "unsupported type '" (unhex msg)
+                     | _ -> false)))
+             ml il
     | _ -> false
